@@ -1470,7 +1470,11 @@ func (db *DB) checkpointIfNeeded(ctx context.Context, exec *syncExecutor, origWA
 
 	// Priority 1: Emergency truncate checkpoint (TRUNCATE mode, blocking)
 	// This prevents unbounded WAL growth from long-lived read transactions.
-	if db.exceedsTruncateThreshold(origWALSize) {
+	// Evaluate the emergency threshold on the size after this sync as well: when
+	// one sync crosses it, waiting for the next sync to notice leaves the WAL
+	// above the bound for a whole sync interval (and for good if the
+	// application goes idle right after).
+	if db.exceedsTruncateThreshold(max(origWALSize, newWALSize)) {
 		truncateThreshold := calcWALSize(uint32(db.pageSize), uint32(db.effectiveTruncatePageN()))
 
 		if !exec.state.truncatePassiveFailed {
